@@ -100,6 +100,7 @@ const (
 type step struct {
 	Op      string `json:"op"`              // issue | respond | wrong | unknown | cancel | burst
 	Churn   []int  `json:"churn,omitempty"` // burst: further callers started while the answers are being written, cancelled afterwards
+	K       []int  `json:"k,omitempty"`     // burst: number of identical copies of each answer, written back-to-back (default 1)
 	Callers []int  `json:"callers,omitempty"`
 	T       int    `json:"t"`
 	M       int    `json:"m,omitempty"`      // marker carried by the response
@@ -608,9 +609,19 @@ func runCase(c *caseIn) (res result) {
 			var serr error
 			for i, t := range st.Callers {
 				cl := e.callers[t]
-				e.log = append(e.log, ev{k: 'R', id: cl.id, ty: cl.kind, m: st.M + i}, ev{k: 'W', id: cl.id})
-				if err := e.send(response(cl.kind, cl.id, st.M+i)); err != nil && serr == nil {
-					serr = err
+				copies := 1
+				if i < len(st.K) && st.K[i] > 1 {
+					copies = st.K[i]
+				}
+				msg := response(cl.kind, cl.id, st.M+i)
+				for k := 0; k < copies; k++ {
+					e.log = append(e.log, ev{k: 'R', id: cl.id, ty: cl.kind, m: st.M + i})
+					if k == 0 {
+						e.log = append(e.log, ev{k: 'W', id: cl.id})
+					}
+					if err := e.send(msg); err != nil && serr == nil {
+						serr = err
+					}
 				}
 			}
 			e.mu.Unlock()
@@ -633,7 +644,7 @@ func runCase(c *caseIn) (res result) {
 				} else {
 					blocked = true
 					if nb < 3 {
-						directs = append(directs, fmt.Sprintf("Blocked: caller %d (request id %d) did not return within the watchdog although its response was sent (burst of %d answers)", t, cl.id, len(st.Callers)))
+						directs = append(directs, fmt.Sprintf("Blocked: step %d: caller %d (request id %d, request number %d of the connection) did not return within the watchdog although its response was sent (burst of %d answers, copies %v)", si, t, cl.id, cl.id/2, len(st.Callers), st.K))
 					}
 					nb++
 				}
@@ -1038,6 +1049,36 @@ func genBurst(r *rng.R) *caseIn {
 	return c
 }
 
+// duplicated answers: 100-300 requests per connection, alone or in groups of 2-8; every answer is
+// written k = 1..4 times back-to-back (identical copies, no pause between them).  Each caller must
+// get its answer exactly once and every later request must still be answered: the next request is
+// the liveness probe of the dispatcher.
+func genDupBurst(r *rng.R) *caseIn {
+	c := &caseIn{Mode: "wire"}
+	total := 100 + r.Intn(201)
+	m := 0
+	for len(c.Kinds) < total {
+		g := []int{1, 1, 1, 1, 2, 4, 8}[r.Intn(7)]
+		base := len(c.Kinds)
+		var ks []int
+		for i := 0; i < g; i++ {
+			c.Kinds = append(c.Kinds, wireKinds[r.Intn(len(wireKinds))])
+			ks = append(ks, []int{1, 2, 2, 3, 3, 4}[r.Intn(6)])
+		}
+		grp := seqInts(base, g)
+		order := make([]int, g)
+		for i, j := range r.Perm(g) {
+			order[i] = grp[j]
+		}
+		c.Steps = append(c.Steps, step{Op: "issue", Callers: grp}, step{Op: "burst", Callers: order, K: ks, M: m + 1})
+		m += g
+	}
+	t := len(c.Kinds)
+	c.Kinds = append(c.Kinds, kMeta)
+	c.Steps = append(c.Steps, step{Op: "issue", Callers: []int{t}}, step{Op: "respond", T: t, M: m + 1})
+	return c
+}
+
 func genRandom(r *rng.R, mode string, ping bool, wrong bool) *caseIn {
 	c := &caseIn{Mode: mode, Ping: ping, Slow: r.Chance(1, 4)}
 	n := 5 + r.Intn(12)
@@ -1221,6 +1262,9 @@ func main() {
 		for i := 0; i < nburst; i++ {
 			add(genBurst(r.Fork()), "burst")
 		}
+		for i := 0; i < nburst/2; i++ {
+			add(genDupBurst(r.Fork()), "dup-burst")
+		}
 		add(&caseIn{Mode: "wrongpong"}, "wrongtype-pong")
 	}
 	results := make([]coqfmt.Case, len(jobs))
@@ -1295,7 +1339,7 @@ func main() {
 			w.Count("sig:" + cs.Sig)
 		}
 	}
-	rule := "exhaustive: n<=4 concurrent requests of mixed kinds, every permutation of the answers x {plain, last-answered caller cancelled first with a late answer, every answer duplicated with another marker}; late-answer / late-rounds: a request is cancelled, further requests are issued, then the abandoned request is answered (before, between and after the other answers; repeated up to 5 rounds on one connection); noise-then-traffic: duplicates and unknown ids while another request is pending, followed by further rounds on the same connection; burst: 3-6 rounds per connection of 24-64 outstanding requests all answered back-to-back in one go (reverse or random order) while 32-96 further requests are being issued and then cancelled; random: 5-16 concurrent requests (wire.ClientConn directly: upstream open/resume/close, downstream open/resume/close, metadata; through iscp.Conn: OpenDownstream xN + one OpenUpstream/SendBaseTime) issued in 1-3 groups, answers in random order with per-answer markers, duplicates of answered ids, odd / far / not-yet-issued ids, cancellations with and without a late answer, optionally keepalive pings every millisecond on the same id generator; wrongtype: answers of another message type (any of 10 tags, a ConnectResponse and a request message among them) bearing a pending id - the caller must get the malformed-message error and nobody else anything (F15, repaired); wrongtype-pong: an UpstreamCloseResponse bearing the id of the library's keepalive ping, in a child process - the process must survive and the keepalive loop close the connection. non-trivial = >=3 requests in flight at once and at least one cancellation or unknown id; distinct = distinct Coq case terms"
+	rule := "exhaustive: n<=4 concurrent requests of mixed kinds, every permutation of the answers x {plain, last-answered caller cancelled first with a late answer, every answer duplicated with another marker}; late-answer / late-rounds: a request is cancelled, further requests are issued, then the abandoned request is answered (before, between and after the other answers; repeated up to 5 rounds on one connection); noise-then-traffic: duplicates and unknown ids while another request is pending, followed by further rounds on the same connection; burst: 3-6 rounds per connection of 24-64 outstanding requests all answered back-to-back in one go (reverse or random order) while 32-96 further requests are being issued and then cancelled; dup-burst: 100-300 requests per connection, alone or in groups of 2-8, every answer written 1-4 times back-to-back as identical copies, each following request being the liveness probe of the dispatcher; random: 5-16 concurrent requests (wire.ClientConn directly: upstream open/resume/close, downstream open/resume/close, metadata; through iscp.Conn: OpenDownstream xN + one OpenUpstream/SendBaseTime) issued in 1-3 groups, answers in random order with per-answer markers, duplicates of answered ids, odd / far / not-yet-issued ids, cancellations with and without a late answer, optionally keepalive pings every millisecond on the same id generator; wrongtype: answers of another message type (any of 10 tags, a ConnectResponse and a request message among them) bearing a pending id - the caller must get the malformed-message error and nobody else anything (F15, repaired); wrongtype-pong: an UpstreamCloseResponse bearing the id of the library's keepalive ping, in a child process - the process must survive and the keepalive loop close the connection. non-trivial = >=3 requests in flight at once and at least one cancellation or unknown id; distinct = distinct Coq case terms"
 	if err := w.Flush(*seed, *tier, rule, false, nil); err != nil {
 		fmt.Fprintln(os.Stderr, err)
 		os.Exit(2)
